@@ -85,6 +85,8 @@ EXH_FOR = {
     "C13": ["XCTRL"], "C09": ["XRED"], "C10": ["XCTRL"], "C12": ["XRED"],
 }
 
+# Every build except "hooks" is made WITHOUT --cfg unicode_bidi_verif (RUSTFLAGS="" overrides harness/.cargo/config.toml),
+# i.e. the crate exactly as its users compile it; the hooks build exists only to answer the STAGE stream.
 FEATURE_SETS = [
     ("default", []),
     ("smallvec", ["--features", "smallvec"]),
@@ -243,9 +245,13 @@ def build_harness(extra, log, tag="default"):
     if tag.startswith("release-noassert"):
         rc, out = sh(["cargo", "build", "--offline"] + extra, cwd=HARN, env={"RUSTFLAGS": ""}, timeout=3000)
         built = os.path.join(HARN, "target-relna", "relna", "ubidi-harness")
-    else:
+    elif tag == "hooks":
         rc, out = sh(["cargo", "build", "--release", "--offline"] + extra, cwd=HARN, timeout=3000)
         built = os.path.join(HARN, "target", "release", "ubidi-harness")
+    else:
+        rc, out = sh(["cargo", "build", "--release", "--offline", "--target-dir", "target-plain"] + extra, cwd=HARN,
+                     env={"RUSTFLAGS": ""}, timeout=3000)
+        built = os.path.join(HARN, "target-plain", "release", "ubidi-harness")
     log.append("cargo build (%s): rc=%d %.1fs" % (tag, rc, time.time() - t0))
     if rc != 0:
         return None, out
@@ -397,6 +403,8 @@ def main():
     feature_sets = FEATURE_SETS if prop == "C20" else [FEATURE_SETS[0], FEATURE_SETS[5]]
     if prop == "C19":
         feature_sets = feature_sets + [FEATURE_SETS[2]]     # serde: reading a Level is a construction path
+    if any(sn == "STAGE" for sn, _ in cfg["streams"]):
+        feature_sets = feature_sets + [("hooks", [])]       # the only build with the cfg-guarded hook module
     njobs = 16 if tier == "thorough" else 8
     total = cfg[tier]
     for tag, extra in feature_sets:
@@ -409,14 +417,14 @@ def main():
             procs.append((tag, "replay") + run_pipeline(hb, stdin_file=replay, out_prefix="%s-%s-replay" % (prop, tag.replace("+", "_"))))
         else:
             corpus = os.path.join(ROOT, "corpus", prop + ".txt")
-            if os.path.exists(corpus):
+            if os.path.exists(corpus) and tag != "hooks":
                 procs.append((tag, "corpus") + run_pipeline(hb, stdin_file=corpus, out_prefix="%s-%s-corpus" % (prop, tag.replace("+", "_"))))
             for sname, share in cfg["streams"]:
                 # a share above 1 is an absolute number of cases (the exhaustive table sweeps: 2 operations)
                 cnt = int(share) if share > 1 else max(1, int(total * share))
+                if (sname == "STAGE") != (tag == "hooks"):
+                    continue              # STAGE only on the hooks build, everything else only on the builds without it
                 if tag == "release-noassert" and prop != "C20":
-                    if sname == "STAGE":
-                        continue          # no hooks in this build
                     if share <= 1 and not cfg.get("exhaustive"):
                         cnt = max(1, cnt // 3)   # the same first cases as the default build
                 if sname in ("C14", "C15"):
